@@ -257,6 +257,10 @@ func (t *Tpl) writeNode(w io.Writer, node *node, ctx *Ctx) (err error) {
 		// It's a speed improvement trick.
 		if node.ctxSrcStatic {
 			ctx.SetBytes(byteconv.B2S(node.ctxVar), node.ctxSrc)
+			if len(node.ctxOK) > 0 {
+				// A literal source sets the ok-flag as well: true unless the literal is empty.
+				ctx.SetStatic(byteconv.B2S(node.ctxOK), len(node.ctxSrc) > 0)
+			}
 		} else {
 			// Get the inspector.
 			ins, err := GetInspector(byteconv.B2S(node.ctxVar), byteconv.B2S(node.ctxIns))
